@@ -118,6 +118,7 @@ def run_case(case):
     BC = gen.make_bc(pf, m, g, spec)
     phi = pf.CellVariable(m, vals.copy(), BC)
     Df, uf = gen.facevar(pf, m, D), gen.facevar(pf, m, u)
+    rebuild = bool(rng.random() < 0.7)       # terms rebuilt every step from the same coefficient objects (typical time loop) or built once
     Mdiff = -pf.diffusionTerm(Df)
     Mconv = pf.convectionUpwindTerm(uf) if 'upwind' in tset else None
     Mbeta = pf.linearSourceTerm(pf.CellVariable(m, beta.copy())) if beta is not None else None
@@ -133,6 +134,9 @@ def run_case(case):
             alpha = float(10 ** rng.uniform(-1, 1))
             dts.append(dt)
             prev = np.array(phi.value, copy=True)
+            if rebuild and step > 0:
+                Mdiff = -pf.diffusionTerm(Df)
+                Mconv = pf.convectionUpwindTerm(uf) if 'upwind' in tset else None
             terms = [pf.transientTerm(phi, dt, alpha), Mdiff]
             if Mconv is not None:
                 terms.append(Mconv)
@@ -177,6 +181,7 @@ def run_case(case):
     maxerr['overshoot/scale'] = worst
     kv = gen.bc_kind_vector(g, spec)
     cov['cases:%s' % cls] = 1
+    cov['terms_rebuilt_each_step' if rebuild else 'terms_built_once'] = 1
     cov['flow:%s' % flowfam] = 1
     cov['terms:%s%s' % (tset, '+beta' if beta is not None else '')] = 1
     for s_ in spec['sides'].values():
